@@ -1,12 +1,13 @@
 /-
   Driver for the prefetch model (stateful).  Requests:
     init <hex file> <maxReq>            → ok
-    a serve <k> | a tc <i> | a ta <i> | a ts <i> | a tr <i> | a r
+    a serve <k> | a servefail <code> | a tc <i> | a ta <i> | a ts <i> | a tr <i> | a r
     a op seek <n> | a op read <n|none> | a op prefetch <size> <cap|none> | a op readv <cap|none> <o:l,o:l,…|->
                                         → ok | disabled
     en                                  → enabled set:  S T<i>… R   (or -)
-    st                                  → E[num:off:len,…] B[off:len,…] d<0|1> p<0|1> pos<n>
+    st                                  → E[num:off:len,…] B[off:len,…] d<0|1> p<0|1> pos<n> x<saved 0|1>
     out                                 → start:want:hex;…  of the completed reads
+    raised                              → start:code,…      of the reads that raised
 -/
 import PV.Model.Prefetch
 import PV.Base.DriverIO
@@ -26,6 +27,7 @@ def parseChunks (s : String) : Option (List Chunk) :=
 
 def parseAct : List String → Option Act
   | ["serve", k] => k.toNat?.map .serve
+  | ["servefail", c] => c.toNat?.map .serveFail
   | ["tc", i] => i.toNat?.map .tCheck
   | ["ta", i] => i.toNat?.map .tAlloc
   | ["ts", i] => i.toNat?.map .tSend
@@ -59,7 +61,7 @@ def digest (s : St) : String :=
   let b01 (b : Bool) := if b then "1" else "0"
   "E[" ++ ",".intercalate (ext.map fun e => s!"{e.1}:{e.2.1}:{e.2.2}") ++ "] B[" ++
     ",".intercalate (bufs.map fun e => s!"{e.1}:{e.2.length}") ++ "] d" ++ b01 s.done ++ " p" ++ b01 s.prefetching ++
-    " pos" ++ toString s.realpos
+    " pos" ++ toString s.realpos ++ " x" ++ b01 s.saved.isSome
 
 def showOut (s : St) : String :=
   if s.out.isEmpty then "-" else
@@ -82,6 +84,8 @@ def stepLine (st : Option St) (line : String) : Option St × String :=
   | ["en"], some s => (st, enabledSet s)
   | ["st"], some s => (st, digest s)
   | ["out"], some s => (st, showOut s)
+  | ["raised"], some s =>
+    (st, if s.raised.isEmpty then "-" else ",".intercalate (s.raised.map fun e => s!"{e.1}:{e.2}"))
   | _, _ => (st, "bad-op")
 
 def main : IO Unit := lineLoopSt (none : Option St) stepLine
